@@ -133,7 +133,15 @@ class ExpandedTraceback:
         self.full_traceback = full_traceback
         self.hide_filenames = hide_filenames
         self.show_filenames = show_filenames
-        last_frame = traceback.extract_tb(exc_info[2])[-1]
+        frames = traceback.extract_tb(exc_info[2])
+        last_frame = frames[-1]
+        # The exception may have been raised inside library code that the
+        # student called (random.choice([])): the relevant line is then the
+        # innermost one in the student's own files, not a line of that library.
+        for frame in reversed(frames):
+            if frame[0] in student_files:
+                last_frame = frame
+                break
         filename, line_number = last_frame[0], last_frame[1]
         if (isinstance(exception, SyntaxError) and exception.lineno is not None
                 and exception.filename in student_files):
